@@ -741,6 +741,51 @@ struct Explorer {
           }
         }
       }
+      // ... and through statements that have nothing to do themselves: what X needs runs through an up-to-date statement
+      // whose own (declared) inputs are being rebuilt -- X starts after those, and not at all when one of them failed
+      {
+        set<int> behind, seen_st;
+        vector<int> todo;
+        for (int pi : prods) todo.push_back(pi);
+        while (!todo.empty()) {
+          int pi = todo.back();
+          todo.pop_back();
+          if (!seen_st.insert(pi).second) continue;
+          const Stmt& ps = v->stmts[pi];
+          bool ran = false;
+          for (auto& c2 : r.cmds) if (c2.spec.id() == ps.id && c2.cycle == rc.cycle) ran = true;
+          if (ran) { if (!prods.count(pi)) behind.insert(pi); continue; }   // its own start was judged; direct ones above
+          vector<string> ins = ps.AllDeclaredInputs();
+          if (!ps.dyndep.empty()) ins.push_back(ps.dyndep);
+          vector<string> more;
+          while (!ins.empty()) {
+            string x = ins.back();
+            ins.pop_back();
+            auto px = v->producer.find(x);
+            if (px == v->producer.end()) continue;
+            const Stmt& xs = v->stmts[px->second];
+            if (xs.phony) { for (auto& y : xs.AllDeclaredInputs()) ins.push_back(y); continue; }
+            todo.push_back(px->second);
+          }
+        }
+        for (int pi : behind) {
+          const Stmt& ps = v->stmts[pi];
+          for (size_t c2 = 0; c2 < r.cmds.size(); ++c2) {
+            if (r.cmds[c2].spec.id() != ps.id || r.cmds[c2].cycle != rc.cycle) continue;
+            bool done_ok = fin_ev[c2] >= 0 && fin_ev[c2] < start_ev[c] && r.cmds[c2].status == 0;
+            if (done_ok) continue;
+            bool failed_before = r.cmds[c2].finished && r.cmds[c2].status != 0 && fin_ev[c2] < start_ev[c];
+            Violation x;
+            x.prop = failed_before ? "C05" : "C04";
+            x.clause = failed_before ? "started-behind-a-failure" : "started-before-indirect-producer-finished";
+            x.detail = "'" + s.id + "' started although '" + ps.id + "', which it depends on through statements that had nothing to do, " +
+                       (failed_before ? "had failed" : "had not finished successfully");
+            x.facts.set("stmt", s.id);
+            x.facts.set("producer", ps.id);
+            out->push_back(x);
+          }
+        }
+      }
       if (!rc.missing_dirs.empty()) {
         Violation x;
         x.prop = "C04"; x.clause = "missing-directory";
